@@ -235,6 +235,9 @@ def _project_by_spec(doc, combined_projection_spec, is_include, container):
                                  for sub_doc in val]
             elif isinstance(val, dict):
                 doc_copy[key] = _project_by_spec(val, spec, is_include, container)
+            elif not is_include:
+                # nothing below a scalar to exclude: it stays
+                doc_copy[key] = _copy_field(val, container)
         elif (is_include and spec is not NOTHING) or (not is_include and spec is NOTHING):
             doc_copy[key] = _copy_field(val, container)
 
